@@ -25,7 +25,7 @@ def _stored_cached(fn):
 
 
 def _norm(t):
-    return t.replace('asm_context->address', 'address').replace(' ', '')
+    return t.replace(' ', '').replace('asm_context->address', '@A')
 
 
 def _lin(fn, n, depth=0):
@@ -57,8 +57,10 @@ def _lin(fn, n, depth=0):
         nst = [x for x in _stored_cached(fn).get(n['d'], []) if x['k'] != 'BinaryOperator' or x.get('op') != '=']
         if len(ds) == 1 and not nst and not any(x['k'] == 'DeclRefExpr' and x.get('d') == n['d'] for x in walk(ds[0])):
             u = _lin(fn, ds[0], depth + 1)
-            if u is not None and any('address' in s_ for s_ in u[0]):
+            if u is not None and any('@A' in s_ for s_ in u[0]):
                 return u
+    if k == 'DeclRefExpr' and n.get('dk') == 'param' and n.get('n') == 'address' and fn.file.startswith('disasm/'):
+        return ({'@A': 1}, 0)
     return ({_norm(show(n)): 1}, 0)
 
 
@@ -82,6 +84,33 @@ def _in_read(fn, n):
     return False
 
 
+_EMITB = {}
+
+
+def _after_emit(fn, n):
+    """Can an emission (add_bin*, memory_write_inc: they advance asm_context->address) precede node n in its function?"""
+    if fn.key not in _EMITB:
+        eb = []
+        for c in fn.calls():
+            q = (callee(c) or '').split('(')[0].split('::')[-1]
+            if q.startswith('add_bin') or q in ('memory_write_inc',):
+                w = fn.where.get(c['i'])
+                if w:
+                    eb.append(w)
+        _EMITB[fn.key] = eb
+    w = fn.block_of(n)
+    if w is None:
+        return False
+    for eb, ei in _EMITB[fn.key]:
+        if eb == w[0]:
+            if ei < w[1]:
+                return True
+            continue
+        if w[0] in fn.reachable_blocks(start=eb):
+            return True
+    return False
+
+
 def bases(fn, ids, side, shift=0):
     """{base constant: node}, undecided (True when some candidate has more than one other term: a running count)"""
     out = {}
@@ -90,11 +119,11 @@ def bases(fn, ids, side, shift=0):
         lf = _lin(fn, n)
         if lf is None:
             continue
-        ca = lf[0].get('address')
-        others = [s_ for s_, c in lf[0].items() if s_ != 'address']
+        ca = lf[0].get('@A')
+        others = [s_ for s_, c in lf[0].items() if s_ != '@A']
         if side == 'asm':
             if ca == -1 and any(lf[0][s_] == 1 for s_ in others):
-                if len(others) == 1:
+                if len(others) == 1 and not _after_emit(fn, n):
                     out.setdefault(-lf[1], n)
                 else:
                     und = True
@@ -171,6 +200,50 @@ def rel_base(prog, floor=20):
                               key[1], key[0], sorted(ka)[0], show(n0)[:70], dfn.file, list(kd.values())[0]['l'], sorted(kd)[0],
                               show(list(kd.values())[0])[:70]),
                           'bases asm %s, decoder %s' % (sorted(ka), sorted(kd)), True))
+    # file-level clause for the CPUs whose operand types are not dispatched by a switch on both sides (if-chains, helper
+    # functions per operand kind): every base the assembler file measures a displacement from is a base the decoder file adds
+    # a displacement to.  Weaker than the per-type clause (two kinds with different bases can be confused), still a necessary
+    # condition.
+    done_files = {o.file for o in obs}
+    afiles = sorted({f.file for f in prog.fns.values() if f.file.startswith('asm/')})
+    for af in afiles:
+        if af in done_files:
+            continue
+        df = 'disasm/' + af.split('/')[1]
+        ka, kd = {}, {}
+        und = False
+        for f in prog.fns.values():
+            if f.file == af:
+                b, u = bases(f, list(f.nodes), 'asm')
+                if not f.name.startswith('parse_instruction_'):
+                    # a helper: its caller may already have emitted the opcode (java parse_offset), the base is relative
+                    # to an unknown position
+                    und = und or bool(b) or u
+                    continue
+                ka.update(b)
+            elif f.file == df and f.blocks:
+                ap = [p for p in f.params() if p.get('n') == 'address']
+                if ap and _stored_cached(f).get(ap[0]['d']):
+                    und = True          # advanced address parameter: bases are relative to an unknown position
+                    continue
+                b, u = bases(f, list(f.nodes), 'dis')
+                und = und or u
+                kd.update(b)
+        if not ka or not kd:
+            continue
+        n0 = list(ka.values())[0]
+        missing = sorted(set(ka) - set(kd))
+        if und:
+            obs.append(Ob('REL-BASE', af, n0['l'], '*', 'file:%s' % af, OBSERVATION,
+                          'assembler bases %s, decoder bases %s plus forms with a running position: not decided' % (sorted(ka), sorted(kd))))
+        elif missing:
+            nm = ka[missing[0]]
+            obs.append(Ob('REL-BASE', af, nm['l'], '*', 'file:%s' % af, VIOLATED,
+                          'the assembler measures a displacement from address%+d (`%s`, line %d) but no expression of %s adds a '
+                          'displacement to address%+d (decoder bases: %s)' % (missing[0], show(nm)[:60], nm['l'], df, missing[0], sorted(kd))))
+        else:
+            obs.append(Ob('REL-BASE', af, n0['l'], '*', 'file:%s' % af, DISCHARGED, '',
+                          'file-level: assembler bases %s are all decoder bases %s' % (sorted(ka), sorted(kd)), True))
     if len([o for o in obs if o.status != OBSERVATION]) < floor:
         raise AnalysisBroken('REL-BASE: only %d operand types with a pc-relative base on both sides' % len(obs))
     return RuleResult('REL-BASE', obs, floor, {})
